@@ -307,10 +307,16 @@ class FuncGen:
         if name.startswith('llvm.expect'):
             self.emit('%s%s;' % (d, cargs[0]))
             return
-        if name.startswith('llvm.memset'):
-            return self.memset(args)
-        if name.startswith('llvm.memcpy') or name.startswith('llvm.memmove'):
-            return self.memcpy(args)
+        if name.startswith('llvm.memset') or name == 'memset':
+            self.memset(args)
+            if res:
+                self.emit('%s = %s;' % (self.dest(res), cargs[0]))
+            return
+        if name.startswith('llvm.memcpy') or name.startswith('llvm.memmove') or name in ('memcpy', 'memmove'):
+            self.memcpy(args)
+            if res:
+                self.emit('%s = %s;' % (self.dest(res), cargs[0]))
+            return
         if name.startswith('llvm.'):
             raise IRError('intrinsic not supported: ' + name)
         if name in ('malloc', 'calloc'):
@@ -625,8 +631,8 @@ def gen_memory_cbmc(tr):
             body = 'static W vm_malloc_%d(W size, int zero){ ' % s['id']
             for tid, objs in s.get('pool', {}).items():
                 body += 'if (vm_tid == %d) { switch (vm_cnt_%d++) { %s default: break; } } ' % (
-                    tid, s['id'], ' '.join('case %d: VM_ASSERT(size <= %dUL, "encoding: pool object too small"); lv_%d = 1; if (zero) { %s } return %dUL;'
-                                           % (i, o.size, o.oid, ' '.join('cs_any(%dUL, 0);' % (o.base + 8 * c) for c in range(o.ncells)), o.base) for i, o in enumerate(objs)))
+                    tid, s['id'], ' '.join('case %d: VM_ASSERT(size <= %dUL, "encoding: pool object too small"); %s if (zero) { %s } return %dUL;'
+                                           % (i, o.size, ('lv_%d = 1;' % o.oid) if o.dies else '', ' '.join('cs_any(%dUL, 0);' % (o.base + 8 * c) for c in range(o.ncells)), o.base) for i, o in enumerate(objs)))
             body += 'VM_ASSERT(0, "encoding: allocation pool exhausted (declare a pool for site %s)"); __CPROVER_assume(0); return 0; }' % s['key']
             out.append('__CPROVER_thread_local int vm_cnt_%d;' % s['id'])
             out.append('static void cs_any(W a, W v);')
